@@ -30,6 +30,8 @@ def cells(tier):
         out.append(cell(f"s{size} named pool A2 cancel0(msg) call(msg) method-cbs", sc, MON))
         sc = scen([pool(size), pool(1)], [[A("A", 2)], [A("B", 2, p=1)], [cancel(rid("A", 0))], [["cancel_all", {"p": 1}]]], outcomes=["ret"], ecb="plain", ccb="plain")
         out.append(cell(f"two pools s{size}/1 A2|B2@1 cancelA0 call@1", sc, MON))
+        sc = scen([pool(size), pool(2)], [[A("A", 2)], [A("B", 2, p=1)], [["cancel", rid("B", 0), {"p": 1}]], [["cancel", rid("A", 1)]]], outcomes=["ret"], ecb="plain", ccb="plain")
+        out.append(cell(f"two pools s{size}/2 A2|B2@1 cancelB0@1 cancelA1", sc, MON))
     for size in [2, 3]:
         for fl in (FLUSH, FLUSH_RE):
             sc = scen(pool(size), [[A("A", 3)], [cancel(rid("A", 0))], [fl]], outcomes=["ret", "exc"], ecb="plain", ccb="slow", slow_ids=[0])
